@@ -254,6 +254,8 @@ def search(ctx, deep=False):
             ctx.count({"filecheck": fn}, True, "fc" + fn, "filecheck")
     fails = _l2(items, deep)
     seen, out = set(), []
+    # report a semantic failure (concrete runtime input) before loud failures of the pass
+    fails.sort(key=lambda f: 0 if f["what"] == "dedup-changed-what-a-launch-observes" else 1)
     for f in fails:
         if f["what"] not in seen:
             seen.add(f["what"])
